@@ -6,8 +6,9 @@ namespace PP.C05
 open PP Doc
 
 /-- **C05.rest_of_line** — in *every* machine state `(stk, col)` over classic documents (text, concat, nest,
-group, line, softline, hardline, always_break, annotate) whose top item is a group at indentation `i`, for every
-page width and ribbon width and both strategies: if the machine lays the group out flat (the fitting predicate
+group, line, softline, hardline, always_break, annotate, align) whose top item is a group at indentation `i`, for every
+page width and ribbon width and both strategies (`align`, hence `hang`, is in the algebra: what it evaluates to at the
+current column is normalised and classic again, and the predicate reads it the same at every column): if the machine lays the group out flat (the fitting predicate
 holds), then everything it emits up to its next line break — the group *and* whatever follows it on that
 line — ends within the page width and within the ribbon measured from the group's indentation.
 (Reachable states of `layout` are such states; the statement needs no reachability hypothesis.) -/
@@ -43,5 +44,24 @@ example : AllClassic [((0 : Int), Mode.brk, Item.doc (.group (.cat [.text [97], 
     · exact .text
     · exact .line
     · exact .text))
+
+/-- non-vacuity with `align`: a group holding a hanging block, laid out flat at width 20 (and the conclusion computed) -/
+example : AllClassic [((0 : Int), Mode.brk, Item.doc (.group (.cat [.text [97], .align (.nest 2 (.cat [.choice false .hardline (.text [32]), .text [98]]))])))] := by
+  intro t ht
+  simp at ht; subst ht
+  refine Classic.group (Classic.cat ?_)
+  intro d hd
+  simp at hd
+  rcases hd with rfl | rfl
+  · exact .text
+  · refine .align (.nest (.cat ?_))
+    intro e he
+    simp at he
+    rcases he with rfl | rfl
+    · exact .line
+    · exact .text
+
+example : fits { w := 20, rw := 20 } 0 20 [((0 : Int), Mode.flat, Item.doc (.cat [.text [97], .align (.nest 2 (.cat [.choice false .hardline (.text [32]), .text [98]]))]))] = true := by
+  decide +kernel
 
 end PP.C05
